@@ -19,7 +19,6 @@ from __future__ import annotations
 import numpy as np
 import scipy.linalg as sla
 
-from vmon import groups as G
 from vmon import pepsgen as PG
 from vmon import pepsref as R
 from vmon.harness import CaseSkip
@@ -126,7 +125,6 @@ def fam_for_gate(rng, gk):
 def hermitian_two_site_fkron(F, rng):
     """H = sum_j a_j A_j(0) B_j(1) + h.c. + local terms, via yastn.fkron;  the same sum with explicit JW matrices."""
     import yastn
-    names = list(F.cat)
     pairs = F.pairs_zero_charge()
     H, Hd = None, np.zeros((F.d ** 2, F.d ** 2), dtype=np.complex128)
     nt = rng.randint(1, 4)
@@ -290,7 +288,7 @@ def case_gate(ctx, idx, rng, nprng):
 
 # ------------------------------------------------------------------------------------------------ kind: circuit
 
-def pick_family_lattice(rng, kinds=("vec", "purif", "randa", "randf", "randp"), idx=0):
+def pick_family_lattice(rng, kinds=("vec", "purif", "randa", "randf", "randp")):
     """draw (family, lattice, state kind) with a dense state of <= 4096 amplitudes."""
     for _ in range(200):
         F = PG.fam(*(rng.choice(PG.FAMILIES) if rng.random() < 0.6 else rng.choice(PG.FERMIONIC)))
